@@ -99,16 +99,19 @@ def subU (site : Nat) (a b : Nat) : TM Nat := if b ≤ a then pure (a - b) else 
 
 abbrev Rd (α : Type) := Bytes → TM (α × Bytes)
 
+/-- a byte: the models take list elements modulo 256, so that every statement holds for arbitrary `List Nat` -/
+@[inline] def byte (a : Nat) : Nat := a % 256
+
 def u8 : Rd Nat
-  | a :: r => pure (a, r)
+  | a :: r => pure (byte a, r)
   | _ => fail
 
 def u16 : Rd Nat
-  | a :: b :: r => pure (a * 256 + b, r)
+  | a :: b :: r => pure (byte a * 256 + byte b, r)
   | _ => fail
 
 def u32 : Rd Nat
-  | a :: b :: c :: d :: r => pure (((a * 256 + b) * 256 + c) * 256 + d, r)
+  | a :: b :: c :: d :: r => pure (((byte a * 256 + byte b) * 256 + byte c) * 256 + byte d, r)
   | _ => fail
 
 def toI16 (n : Nat) : Int := if n < 32768 then (n : Int) else (n : Int) - 65536
